@@ -29,6 +29,7 @@ UNWRAP_CALLS = {
     "unwrap-or": ("let v = opt.unwrap_or(0);", None, None),
     "unwrap-or-default": ("let v = opt.unwrap_or_default();", None, None),
     "question-mark": ("let v = opt?;", None, None),
+    "unwrap-in-macro-arguments": ("println!(\"{}\", opt.unwrap());", "unwrap-call", None),
 }
 CLONE_CALLS = {
     "in-for": (["for it in items.iter() {", "    out.push(it.clone());", "}"], 1, "clone-in-loop", "detect_clone_in_loop"),
@@ -57,7 +58,10 @@ BLOCKING_CALLS = {
     "my-fs-module": ("let s = myfs::read_to_string(\"a.txt\");", None, None),
 }
 WRAPPERS = {"none": None, "spawn_blocking": ("tokio::task::spawn_blocking(move || {", "}).await;"),
-            "block_in_place": ("tokio::task::block_in_place(|| {", "});")}
+            "block_in_place": ("tokio::task::block_in_place(|| {", "});"),
+            # the same wrappers called with explicit type arguments / as a method of a runtime handle
+            "spawn_blocking-turbofish": ("tokio::task::spawn_blocking::<_, ()>(move || {", "}).await;"),
+            "spawn_blocking-method": ("handle.spawn_blocking(move || {", "}).await;")}
 
 
 def render_fn(context, name, body, is_async=False):
@@ -116,6 +120,8 @@ def _judge(ctx, vs, expected, prefix, content):
     for line, suffix, cond in expected:
         mine = [v for v in vs if v.line == line]
         ctx.cover("flagged" if mine else "not-flagged")
+        ctx.note("judged_source", content.split("\n")[line - 1].strip())
+        ctx.note("n_reported_on_line", len(mine))
         ctx.require("call-reported-exactly-once-iff-risky-outside-tests", Eq(len(mine) == 1, cond),
                     line=line, got=[v.rule_id for v in mine], source=content.split("\n")[line - 1].strip())
         ctx.require("at-most-once", len(mine) <= 1, line=line)
